@@ -261,13 +261,15 @@ PROPS["C12"] = {
              "vertime, commit id, and Load seeding accepted = committed. Layer 2 (acceptor): 3..5 real ArbiterManagers started through "
              "Load from scratch dirs (meta.pb + aof tail), 2..3 protocol-abiding abstract candidates with 1..2 candidacies each and "
              "colliding numbers, shuffled proposal/commit deliveries to the real handlers / DoSelf*, lost requests, lost replies, "
-             "restarts of pure acceptors from their saved metadata. Layer 3 (voter, engine V): the real DoVote/DoProposal/DoCommit of "
+             "restarts of pure acceptors from their saved metadata; REPL_ANNOUNCEMENT of the holder of a recorded commit majority through the "
+             "real handler (real meta.pb), a restart after it and delayed stale proposals/commits to the restarted member. Layer 3 (voter, engine V): the real DoVote/DoProposal/DoCommit of "
              "2..3 candidates (<=3 rounds) over net.Pipe-backed ArbiterClients, every delivery / loss / reply loss / restart / phase start "
              "chosen by the case's schedule at quiescent points. Oracles: numbers never decrease (also across restarts); handler "
              "preconditions (n > accepted, n > committed, no pending commit; commit only for the accepted number, once); members with a "
              "newer own log refuse; at most one recorded commit majority (layer 2) / at most one successful DoCommit, success implies a "
              "recorded majority (layer 3); DoVote picks the eligible responder with the newest log (ties weight, host) iff a majority "
-             "answered. Non-trivial: layers 2/3 - two different candidates' proposals were delivered at one acceptor while the earlier "
+             "answered; after a processed announcement the member's commit id survives a restart and requests with a number <= it stay "
+             "refused. Non-trivial: layer 2 additionally - announcement, then restart of that member, then a stale proposal delivered; layers 2/3 - two different candidates' proposals were delivered at one acceptor while the earlier "
              "candidacy was not concluded; CompareAofId - file index wrapped between the positions or equal file position with different "
              "command time; store - >=3 members of >=2 kinds and commit id > 0. Distinct = FNV-64 of the whole case."),
     "assumptions": [
@@ -280,18 +282,22 @@ PROPS["C12"] = {
         "file index 0xffffffff is not generated (Aof.FindAofFiles cannot enumerate it)",
         "layer 3 runs a candidate's local self-call at the start of its phase (before any other delivery of that phase); other "
         "placements of the self-call are covered by layer 2",
-        "voteSucced()/announcements are not executed: the election is observed up to the return of DoCommit",
-        "while a finding is listed as known: F1 - all positions of a case share one aof file; F2 - restarts that would forget an unsaved "
-        "number are skipped; F3 - a candidate whose number was overwritten gives the round up; F3/F4/F5 - verdicts at a member whose "
+        "layer 2 executes announcements only for a candidacy with a recorded commit majority, mirrors voteSucced's role/version/Save on the winner "
+        "and DoAnnouncement's request; after a processed announcement further commit majorities are counted, not judged (the election is over, "
+        "pending commits are legitimately cleared); layer 3 still stops at the return of DoCommit",
+        "the goroutine ArbiterManager.DoAnnouncement() starts on ERR_STATUS / ERR_ROLE answers is awaited before the next delivery (it reads "
+        "voter.proposalHost without the voter mutex: a data race of the server outside this property, see notes/C12.md)",
+        "while a finding is listed as known: F1 - all positions of a case share one aof file; F2 - restarts that would forget a number the unchanged code does not persist "
+        "are skipped (a member whose last relevant event was a processed announcement does restart); F3 - a candidate whose number was overwritten gives the round up; F3/F4/F5 - verdicts at a member whose "
         "acceptor state was corrupted by the known defect (and the two-winner verdict of that execution) are withheld and counted",
     ],
     "units": [
         rapid_unit("pure", "^TestC12_Pure_", quick={"checks": 16000, "shards": 2, "timeout_s": 300},
                    thorough={"checks": 400000, "shards": 4, "timeout_s": 1500}),
-        rapid_unit("acceptor", "^TestC12_Acceptor$", quick={"checks": 24000, "shards": 4, "timeout_s": 300},
-                   thorough={"checks": 1200000, "shards": 6, "timeout_s": 1500}),
+        rapid_unit("acceptor", "^TestC12_Acceptor$", quick={"checks": 24000, "shards": 6, "timeout_s": 400},
+                   thorough={"checks": 900000, "shards": 6, "timeout_s": 2400}),
         rapid_unit("voter", "^TestC12_Voter$", quick={"checks": 48000, "shards": 8, "timeout_s": 300},
-                   thorough={"checks": 900000, "shards": 6, "timeout_s": 1500}),
+                   thorough={"checks": 900000, "shards": 6, "timeout_s": 2400}),
         plain_unit("replay", "^TestC12_Replay$", replay=True),
     ],
 }
@@ -611,3 +617,24 @@ for _p in ("C05", "C06"):
     ]
     PROPS[_p]["rule"] = PROPS[_p]["rule"] + " Second engine: " + _R_RULE
     PROPS[_p]["assumptions"] = PROPS[_p]["assumptions"] + _R_ASSUME
+
+# engine T (Redis-style text commands against a key-value reference store; harness/server/c15t_*.go, notes/C15T.md)
+PROPS["C15"]["units"] += [
+    rapid_unit("text-kv", "^TestC15_TextKV$", quick={"checks": 4000, "shards": 8, "timeout_s": 600},
+               thorough={"checks": 48000, "shards": 16, "timeout_s": 3600}),
+    plain_unit("replay-C15-text", "^TestC15_TextReplay$", replay=True, replay_match="^text-"),
+]
+PROPS["C15"]["rule"] = PROPS["C15"]["rule"] + (" (c) engine T: one fresh leader per case under a virtual clock, 1..2 text connections served by the real "
+    "Server.handle over in-memory connections; rapid draws 5..60 Redis-style commands (SET with EX/PX/NX/XX, GET, DEL, SETNX, GETSET, INCR/DECR/INCRBY/DECRBY, "
+    "APPEND, EXISTS, STRLEN, TYPE, EXPIRE, PEXPIRE, PERSIST, TTL, PTTL, SETEX, PSETEX) and clock ticks over 1..4 keys with values from empty to 4 kB incl. CR LF NUL, "
+    "decimal and near-int64 numbers; every reply is compared with a reference key-value store kept as a set of hypotheses (forks only where a plain store has a choice), "
+    "every key is read back after every command and fully (GET/EXISTS/STRLEN/TYPE/TTL) after every tick and at the end. Non-trivial (engine T): at least three successful "
+    "writes of at least two kinds on one key since its last DEL and at least one GET that returned a stored value after a write.")
+PROPS["C15"]["assumptions"] = PROPS["C15"]["assumptions"] + [
+    "engine T: commands are issued one at a time (no pipelining, no concurrency between the two connections)",
+    "engine T: millisecond expiries <= 3000 ms and PEXPIREAT are not generated (wall-clock wheel / wall clock); EXPIREAT is not registered by the server",
+    "engine T: seconds 1..65535, no zero/negative/minute-granular times; key names that map to different 16-byte keys; one database; stand-alone leader; no ACK/NAOF/TX/PTX options",
+    "engine T design choices that are modelled, not flagged: GET of an integer answers :n, integer overflow wraps, '+5' and '007' are accepted as deltas, a key set for n s is gone after the sweep of t+n+1, "
+    "an expiry update that moves the due time by at most 1 s may be ignored, SETNX on a held key waits for the connection time-out",
+    "engine T: six listed known findings are excluded by construction while listed (counted in the evidence)",
+]
